@@ -10,7 +10,7 @@ func init() {
 			"(c) the estimate entry points run the same compute function with the same arguments on a cache context whose write-back is never called; (d) the progress / overshoot / overcharge guards precede the state updates of the swap loop; (e) totals: amount in is ceiled, amount out truncated.",
 		NotCovered:  []string{"the bound on the distance from the exact rational curve", "value equality of estimate and execution beyond 'same code, same arguments'", "the round-trip inequality", "18- vs 36-digit regimes"},
 		Assumptions: []string{"operands of the price functions are positive and liquidity − product > 0 (direction inference)", "rounding classes of osmomath as proved by C12"},
-		MinObl:      143,
+		MinObl:      149,
 		Run:         runC03,
 	})
 }
@@ -115,6 +115,7 @@ func runC03swaps(c *rules.Ctx) {
 	clSwapLoopRules(c)
 	clSwapSettleRules(c)
 	clPoolWriteRules(c)
+	clOvershootBeforeTickRules(c)
 }
 
 func itoa(i int) string { return string(rune('0' + i)) }
